@@ -1640,6 +1640,17 @@ func execLines(op Op) []string {
 	for _, s := range res {
 		out = append(out, fmt.Sprintf("C17M line %d %d => %d", s.lo, s.hi, s.got))
 	}
+	// the same text behind leading blanks that make a two-byte line end straddle the scanner's 4096-byte buffer
+	// (blanks before the first token move no token to another line: same expected lines)
+	if padded := alignTwoByteLineEnd(src, NewRng(seed^0x51ed), 4095); padded != "" {
+		resP, failP := runLines(padded, sites, mode)
+		if failP != "" {
+			return []string{"X lines-program-failed => straddle:" + strings.ReplaceAll(strings.ReplaceAll(failP, " ", "_"), "\n", "|")}
+		}
+		for _, s := range resP {
+			out = append(out, fmt.Sprintf("C17M line %d %d => %d", s.lo, s.hi, s.got))
+		}
+	}
 	// shift-invariance: k extra blank/comment lines before statement number st (Impl vs Impl)
 	r := NewRng(seed ^ 0xabcdef)
 	nst := strings.Count(src, "") // upper bound, the statement serials are small
